@@ -2,107 +2,1279 @@
 
 package c12
 
-import (
-	"encoding/json"
-	"fmt"
-	"net/http/httptest"
-	"strings"
-	"testing"
+// C12, admin/debug-API half (unit debug-api): the update histories of the BFS
+// unit, with every operation made the way an operator makes it: an HTTP request
+// served by the REAL handlers of pkg/admin/debug/debug_api.go
+// (/debug/update_config, /debug/update_route, /debug/disable_tls) through the
+// REAL admin mux (admin/server.Server.Start builds it from the registered
+// patterns; it is never bound to a socket: requests are httptest requests served
+// by mux.ServeHTTP on a ResponseRecorder). debug_api.go carries the build tag
+// mosn_debug, so this file does too and the unit is built with
+// -tags verif,mosn_debug ("tags" in checks.d/C12.json); the BFS unit of the same
+// virtual package is built without it and never sees this file.
+//
+//   world      = the universe of the BFS unit (cluster manager, router manager,
+//                configmanager, xDS converter; see reset) plus a never-started
+//                server.NewServer behind the listener adapter (a new one whenever
+//                a history touched listeners), the stream filter manager (emptied)
+//                and the client-side TLS switch (re-enabled)
+//   operations = HTTP requests with JSON bodies from a small alphabet per debug
+//                operation kind (router, cluster incl. hosts, listener, extend,
+//                add/remove route, disable_tls): valid updates, updates that are
+//                repeated (any operation may follow itself), updates of unknown
+//                objects, malformed JSON, unknown "type", a config of the wrong
+//                JSON type, missing fields (name, route, domain, config), another
+//                HTTP method; one read-only admin request (config_dump);
+//                interleaved with Go-API / xDS operations of the BFS alphabet and
+//                ListenerAdapter.DeleteListener, so that debug, API and xDS
+//                updates mix
+//   state      = canonical form of the BFS unit (canonOf) + per listener name the
+//                lookup through the adapter, its stored configuration, the network
+//                and stream filter chains in force, the listeners and extends of
+//                the dump, the TLS switch
+//   oracles    = (D) live == fresh objects built from the dump, always (routers,
+//                clusters: the BFS unit's differential; listeners: stored
+//                configuration and filter chains against those built from the
+//                dumped listener; the dump must be loadable: a cluster without a
+//                name makes ParseClusterConfig - i.e. the restarted MOSN - exit)
+//                (M) the BFS unit's reference model for what the statement fixes
+//                (last update wins, removed is gone, unknown objects stay absent),
+//                fed with the semantic equivalent of each valid request; for
+//                listeners / extends / the TLS switch: the last accepted request
+//                (R) a request answered with an error status (or aborted by a
+//                panic of the handler) and the read-only request change nothing:
+//                canonical state before == after
+//                (S) status: a malformed / wrongly typed / unknown-type request
+//                must be answered with an error status, a valid update of the
+//                alphabet with 200. Not judged (statement silent; enumerated,
+//                (D) and (R) still apply): the status of requests with missing
+//                fields, on unknown objects, with another HTTP method, of the
+//                invalid router configuration, of a listener update with another
+//                address; a panic of the handler on a request with a missing field
+//                (net/http recovers it: the client sees an aborted connection)
+//
+// Canonical-state merging: as in the BFS unit; the additional components are
+// everything the additional operations read (listener lookups are by name, the
+// handler compares the address; the filter managers are keyed by listener name
+// and only read for present listeners; extends and the TLS switch are plain
+// values). Host weights of the alphabet lie in [1,128], the range the config
+// parser normalises to (a weight outside it is stored as is by the live host and
+// clamped by a restart; both balance identically, the getter differs).
 
+import (
+	"context"
+	"encoding/json"
+	"errors"
+	"fmt"
+	"net/http"
+	"net/http/httptest"
+	"reflect"
+	"sort"
+	"strings"
+	"sync"
+	"sync/atomic"
+	"testing"
+	"time"
+	"unsafe"
+
+	"mosn.io/api"
 	_ "mosn.io/mosn/pkg/admin/debug"
 	adminserver "mosn.io/mosn/pkg/admin/server"
 	v2 "mosn.io/mosn/pkg/config/v2"
 	"mosn.io/mosn/pkg/configmanager"
+	"mosn.io/mosn/pkg/network"
 	"mosn.io/mosn/pkg/server"
+	"mosn.io/mosn/pkg/streamfilter"
 	"mosn.io/mosn/pkg/types"
+	"mosn.io/mosn/pkg/upstream/cluster"
+	"mosn.io/mosn/pkg/verifrt/vreport"
 )
 
-type dbgAdminCfg struct{}
+const (
+	dbgPart     = "debug-api-histories-bfs"
+	dbgServer   = "verif-c12d-server"
+	dbgNetType  = "verif_c12d_network"
+	dbgSFType   = "verif_c12d_stream"
+	dbgL1       = "verif-c12d-L1"
+	dbgAddrA    = "127.0.0.1:10021"
+	dbgAddrB    = "127.0.0.1:10022"
+	dbgAddrC    = "127.0.0.1:10023" // the listener without a name is named by its address
+	pathConfig  = "/debug/update_config"
+	pathRoute   = "/debug/update_route"
+	pathTLS     = "/debug/disable_tls"
+	pathCfgDump = "/api/v1/config_dump"
+)
 
-func (dbgAdminCfg) GetAdmin() *v2.Admin {
-	a := &v2.Admin{}
-	_ = json.Unmarshal([]byte(`{"address":{"socket_address":{"address":"127.0.0.1","port_value":1}}}`), a)
-	return a
+var dbgListenerNames = []string{dbgL1, dbgAddrC}
+
+// ---------------------------------------------------------------------------
+// registered filter types and the listener wrapper (never binds)
+// ---------------------------------------------------------------------------
+
+type dbgReadFilter struct{ tag string }
+
+func (f *dbgReadFilter) OnData(buffer api.IoBuffer) api.FilterStatus              { return api.Continue }
+func (f *dbgReadFilter) OnNewConnection() api.FilterStatus                        { return api.Continue }
+func (f *dbgReadFilter) InitializeReadFilterCallbacks(cb api.ReadFilterCallbacks) {}
+
+type dbgNetFactory struct{ tag string }
+
+func (f *dbgNetFactory) CreateFilterChain(ctx context.Context, cb api.NetWorkFilterChainFactoryCallbacks) {
+	cb.AddReadFilter(&dbgReadFilter{tag: f.tag})
 }
+
+type dbgNetRecorder struct{ tags []string }
+
+func (r *dbgNetRecorder) AddReadFilter(rf api.ReadFilter) {
+	if f, ok := rf.(*dbgReadFilter); ok {
+		r.tags = append(r.tags, f.tag)
+	} else {
+		r.tags = append(r.tags, fmt.Sprintf("%T", rf))
+	}
+}
+func (r *dbgNetRecorder) AddWriteFilter(wf api.WriteFilter) {
+	r.tags = append(r.tags, fmt.Sprintf("write:%T", wf))
+}
+
+type dbgStreamFilter struct{ tag string }
+
+func (f *dbgStreamFilter) OnDestroy() {}
+func (f *dbgStreamFilter) OnReceive(ctx context.Context, headers api.HeaderMap, buf api.IoBuffer, trailers api.HeaderMap) api.StreamFilterStatus {
+	return api.StreamFilterContinue
+}
+func (f *dbgStreamFilter) SetReceiveFilterHandler(handler api.StreamReceiverFilterHandler) {}
+
+type dbgStreamFactory struct{ tag string }
+
+func (f *dbgStreamFactory) CreateFilterChain(ctx context.Context, cb api.StreamFilterChainFactoryCallbacks) {
+	cb.AddStreamReceiverFilter(&dbgStreamFilter{tag: f.tag}, api.BeforeRoute)
+}
+
+type dbgStreamRecorder struct{ tags []string }
+
+func (r *dbgStreamRecorder) AddStreamSenderFilter(filter api.StreamSenderFilter, p api.SenderFilterPhase) {
+	r.tags = append(r.tags, fmt.Sprintf("sender:%T", filter))
+}
+func (r *dbgStreamRecorder) AddStreamReceiverFilter(filter api.StreamReceiverFilter, p api.ReceiverFilterPhase) {
+	if f, ok := filter.(*dbgStreamFilter); ok {
+		r.tags = append(r.tags, f.tag)
+	} else {
+		r.tags = append(r.tags, fmt.Sprintf("%T", filter))
+	}
+}
+func (r *dbgStreamRecorder) AddStreamAccessLog(accessLog api.AccessLog) {
+	r.tags = append(r.tags, "accesslog")
+}
+
+func dbgVariant(conf map[string]interface{}) string {
+	s, _ := conf["variant"].(string)
+	if s == "" {
+		s = "?"
+	}
+	return s
+}
+
+// the network listener is the real network.NewListener object; Start - which the
+// adapter calls in a goroutine for a new listener and which would bind - only counts
+type dbgListener struct{ types.Listener }
+
+var dbgStarts int64
+
+func (l *dbgListener) Start(lctx context.Context, restart bool) { atomic.AddInt64(&dbgStarts, 1) }
 
 type dbgCMFilter struct{}
 
 func (dbgCMFilter) OnCreated(cccb types.ClusterConfigFactoryCb, chcb types.ClusterHostFactoryCb) {}
 
-func TestVerifC12DebugAPI(t *testing.T) {
-	quiet()
-	s := &adminserver.Server{}
-	s.Start(dbgAdminCfg{})
-	mux := s.Server.Handler
+type dbgAdminCfg struct{}
+
+func (dbgAdminCfg) GetAdmin() *v2.Admin {
+	a := &v2.Admin{}
+	// never started: store.AddService only records the server
+	_ = json.Unmarshal([]byte(`{"address":{"socket_address":{"address":"127.0.0.1","port_value":1}}}`), a)
+	return a
+}
+
+var (
+	dbgOnce sync.Once
+	dbgMux  http.Handler
+)
+
+func dbgSetup() error {
+	dbgOnce.Do(func() {
+		quiet()
+		api.RegisterNetwork(dbgNetType, func(conf map[string]interface{}) (api.NetworkFilterChainFactory, error) {
+			return &dbgNetFactory{tag: dbgVariant(conf)}, nil
+		})
+		api.RegisterStream(dbgSFType, func(conf map[string]interface{}) (api.StreamFilterChainFactory, error) {
+			return &dbgStreamFactory{tag: dbgVariant(conf)}, nil
+		})
+		network.RegisterListenerFactory(func(lc *v2.Listener) types.Listener {
+			return &dbgListener{Listener: network.NewListener(lc)}
+		})
+		s := &adminserver.Server{}
+		s.Start(dbgAdminCfg{})
+		if s.Server != nil {
+			dbgMux = s.Server.Handler
+		}
+	})
+	mux, ok := dbgMux.(*http.ServeMux)
+	if !ok {
+		return fmt.Errorf("admin server did not build a *http.ServeMux (%T)", dbgMux)
+	}
+	// the debug handlers must be the ones registered by pkg/admin/debug (build tag mosn_debug)
+	for _, p := range []string{pathConfig, pathRoute, pathTLS, pathCfgDump} {
+		if _, pat := mux.Handler(httptest.NewRequest("POST", p, nil)); pat != p {
+			return fmt.Errorf("admin mux serves %s by pattern %q: the debug handlers are not registered (built without -tags mosn_debug?)", p, pat)
+		}
+	}
+	return nil
+}
+
+// ---------------------------------------------------------------------------
+// alphabet
+// ---------------------------------------------------------------------------
+
+const (
+	expFree   = iota // status not judged
+	expAccept        // a valid update of the alphabet: must be answered with 200
+	expReject        // malformed / wrongly typed / unknown type: must be answered with an error status
+	expRoute         // add/remove route: must be accepted when the model knows the router and a virtual host listing the domain
+)
+
+type dReq struct{ Method, Path, Body string }
+
+type lnSem struct {
+	Name   string
+	Addr   string
+	Cfg    string // normalised configuration JSON
+	Net    []string
+	Stream []string
+}
+
+type extKV struct{ Type, Config string }
+
+type dOp struct {
+	Name   string
+	Class  string // operation class in finding keys
+	Req    *dReq  // an HTTP request to the admin mux ...
+	Go     *opT   // ... or a Go-API / xDS operation of the BFS alphabet
+	DelLn  string // ... or ListenerAdapter.DeleteListener("", name)
+	Expect int
+	Eq     *opT     // semantic equivalent of an accepted request for the BFS unit's model
+	Opaque []string // routers whose content the statement does not fix after the (accepted) request
+	Ln     *lnSem
+	Ext    []extKV
+	TLS    *bool // disable value
+	NoName bool  // cluster without a name
+	Read   bool  // read-only request
+}
+
+func (o *dOp) class() string {
+	if o.Go != nil {
+		return o.Go.class()
+	}
+	return o.Class
+}
+
+func mustJSON(v interface{}) string {
+	b, err := json.Marshal(v)
+	if err != nil {
+		panic(err)
+	}
+	return string(b)
+}
+
+func envelope(typ string, cfg interface{}) string {
+	return mustJSON(map[string]interface{}{"type": typ, "config": cfg})
+}
+
+type jm = map[string]interface{}
+
+func dbgClusterJSON(cc string, hosts []string) jm {
+	c := mkCluster(cc)
+	m := jm{"name": c.Name, "type": string(c.ClusterType), "lb_type": string(c.LbType)}
+	if c.MaxRequestPerConn != 0 {
+		m["max_request_per_conn"] = c.MaxRequestPerConn
+	}
+	if hosts != nil {
+		var hs []interface{}
+		for _, h := range mkHosts(hosts) {
+			var x interface{}
+			_ = json.Unmarshal([]byte(mustJSON(h)), &x)
+			hs = append(hs, x)
+		}
+		m["hosts"] = hs
+	}
+	return m
+}
+
+func dbgFilter(typ, variant string) jm { return jm{"type": typ, "config": jm{"variant": variant}} }
+
+func dbgListenerJSON(name, addr, net string, stream []string, chains int) jm {
+	chain := jm{"filters": []interface{}{dbgFilter(dbgNetType, net)}}
+	cs := []interface{}{}
+	for i := 0; i < chains; i++ {
+		cs = append(cs, chain)
+	}
+	l := jm{"address": addr, "filter_chains": cs}
+	if name != "" {
+		l["name"] = name
+	}
+	if len(stream) > 0 {
+		var sf []interface{}
+		for _, t := range stream {
+			sf = append(sf, dbgFilter(dbgSFType, t))
+		}
+		l["stream_filters"] = sf
+	}
+	return l
+}
+
+// normListenerJSON: the canonical text of a listener configuration (through the type's own
+// JSON form, so that defaults filled in by UnmarshalJSON are the same on every side).
+func normListenerJSON(raw []byte) (string, error) {
+	lc := &v2.Listener{}
+	if err := json.Unmarshal(raw, lc); err != nil {
+		return "", err
+	}
+	b, err := json.Marshal(lc)
+	return string(b), err
+}
+
+func buildDbgAlphabet() ([]*dOp, error) {
+	var ops []*dOp
+	var berr error
+	add := func(o *dOp) { ops = append(ops, o) }
+	post := func(path, body string) *dReq { return &dReq{"POST", path, body} }
+
+	// --- /debug/update_config, type router
+	for _, rc := range []string{"RA", "RB", "RI", "RC"} {
+		exp := expAccept
+		if rc == "RI" {
+			exp = expFree // two default virtual hosts: accepted as a new router (nil table), rejected as an update
+		}
+		add(&dOp{Name: "debug-config router(" + rc + ")", Class: "debug update_config(router)", Req: post(pathConfig, envelope("router", mkRouterCfg(rc))),
+			Expect: exp, Eq: &opT{Kind: kRouters, RouterCfg: rc}})
+	}
+	add(&dOp{Name: "debug-config router(no name)", Class: "debug update_config(router without name)",
+		Req:    post(pathConfig, envelope("router", jm{"virtual_hosts": []interface{}{jm{"name": "vhN", "domains": []string{"*"}, "routers": []interface{}{mkRoute("all->c1")}}}})),
+		Expect: expFree, Opaque: []string{""}})
+	add(&dOp{Name: "debug-config router(config is a number)", Class: "debug update_config(router, config of the wrong JSON type)",
+		Req: post(pathConfig, `{"type":"router","config":5}`), Expect: expReject})
+	add(&dOp{Name: "GET debug-config router(RB)", Class: "debug update_config(router, GET)",
+		Req: &dReq{"GET", pathConfig, envelope("router", mkRouterCfg("RB"))}, Expect: expFree, Eq: &opT{Kind: kRouters, RouterCfg: "RB"}})
+
+	// --- type cluster (includes the hosts)
+	for _, x := range []struct {
+		cc string
+		hs []string
+	}{{"CA", []string{"h1"}}, {"CA2", []string{"h2", "h3"}}, {"CA", nil}, {"CB", []string{"h1", "h2"}}} {
+		cj := dbgClusterJSON(x.cc, x.hs)
+		// self-check: the JSON form decodes to the configuration the model is fed with
+		var back v2.Cluster
+		if err := json.Unmarshal([]byte(mustJSON(cj)), &back); err != nil {
+			berr = fmt.Errorf("cluster json %s: %v", x.cc, err)
+		} else {
+			want := mkCluster(x.cc)
+			var a, b []string
+			for _, h := range back.Hosts {
+				a = append(a, descOfCfg(h))
+			}
+			for _, h := range mkHosts(x.hs) {
+				b = append(b, descOfCfg(h))
+			}
+			if back.Name != want.Name || back.LbType != want.LbType || back.ClusterType != want.ClusterType || back.MaxRequestPerConn != want.MaxRequestPerConn || !reflect.DeepEqual(a, b) {
+				berr = fmt.Errorf("cluster json %s does not decode to the modelled configuration: %+v", x.cc, back)
+			}
+		}
+		add(&dOp{Name: fmt.Sprintf("debug-config cluster(%s,{%s})", x.cc, strings.Join(x.hs, ",")), Class: "debug update_config(cluster)",
+			Req: post(pathConfig, envelope("cluster", cj)), Expect: expAccept,
+			Eq: &opT{Kind: kClusterHost, ClusterCfg: x.cc, Clusters: []string{mkCluster(x.cc).Name}, Hosts: x.hs}})
+	}
+	add(&dOp{Name: "debug-config cluster(no name)", Class: "debug update_config(cluster without name)",
+		Req: post(pathConfig, envelope("cluster", jm{"type": "SIMPLE", "lb_type": "LB_ROUNDROBIN"})), Expect: expFree, NoName: true})
+	add(&dOp{Name: "debug-config cluster(hosts is a string)", Class: "debug update_config(cluster, field of the wrong JSON type)",
+		Req: post(pathConfig, `{"type":"cluster","config":{"name":"c1","hosts":"h1"}}`), Expect: expReject})
+
+	// --- type extend
+	for _, x := range [][]extKV{{{"e1", `{"v":1}`}}, {{"e1", `{"v":2}`}}, {{"e2", `{"v":1}`}, {"e1", `{"v":3}`}}} {
+		var arr []interface{}
+		var ns []string
+		for _, kv := range x {
+			arr = append(arr, jm{"type": kv.Type, "config": json.RawMessage(kv.Config)})
+			ns = append(ns, kv.Type+"="+kv.Config)
+		}
+		add(&dOp{Name: "debug-config extend(" + strings.Join(ns, ",") + ")", Class: "debug update_config(extend)",
+			Req: post(pathConfig, envelope("extend", arr)), Expect: expAccept, Ext: x})
+	}
+	add(&dOp{Name: "debug-config extend(config is an object)", Class: "debug update_config(extend, config of the wrong JSON type)",
+		Req: post(pathConfig, `{"type":"extend","config":{"type":"e1","config":{"v":9}}}`), Expect: expReject})
+
+	add(&dOp{Name: "debug-config extend(second element is a number)", Class: "debug update_config(extend, element of the wrong JSON type)",
+		Req: post(pathConfig, `{"type":"extend","config":[{"type":"e9","config":{"v":1}},5]}`), Expect: expReject})
+
+	// --- requests no type can accept
+	add(&dOp{Name: "debug-config malformed json", Class: "debug update_config(malformed JSON)",
+		Req: post(pathConfig, `{"type":"cluster","config":{"name":"c1","hosts":[`), Expect: expReject})
+	add(&dOp{Name: "debug-config unknown type", Class: "debug update_config(unknown type)",
+		Req: post(pathConfig, envelope("clusters", dbgClusterJSON("CA", []string{"h1"}))), Expect: expReject})
+	add(&dOp{Name: "debug-config empty body", Class: "debug update_config(empty body)", Req: post(pathConfig, ``), Expect: expReject})
+	add(&dOp{Name: "debug-config router(no config)", Class: "debug update_config(no config)", Req: post(pathConfig, `{"type":"router"}`), Expect: expReject})
+
+	// --- type listener
+	ln := func(name, cls string, cfg jm, exp int, sem *lnSem) {
+		if sem != nil {
+			// the stored configuration carries the effective name (the address when none is given)
+			exp := jm{}
+			for k, v := range cfg {
+				exp[k] = v
+			}
+			exp["name"] = sem.Name
+			n, err := normListenerJSON([]byte(mustJSON(exp)))
+			if err != nil {
+				berr = fmt.Errorf("listener json %s: %v", name, err)
+			}
+			sem.Cfg = n
+		}
+		add(&dOp{Name: "debug-config listener(" + name + ")", Class: cls, Req: post(pathConfig, envelope("listener", cfg)), Expect: exp, Ln: sem})
+	}
+	ln("L1,A,P1", "debug update_config(listener)", dbgListenerJSON(dbgL1, dbgAddrA, "P1", nil, 1), expFree, &lnSem{Name: dbgL1, Addr: dbgAddrA, Net: []string{"P1"}})
+	ln("L1,A,P2,stream=s1", "debug update_config(listener)", dbgListenerJSON(dbgL1, dbgAddrA, "P2", []string{"s1"}, 1), expFree, &lnSem{Name: dbgL1, Addr: dbgAddrA, Net: []string{"P2"}, Stream: []string{"s1"}})
+	ln("L1,B,P1", "debug update_config(listener)", dbgListenerJSON(dbgL1, dbgAddrB, "P1", nil, 1), expFree, &lnSem{Name: dbgL1, Addr: dbgAddrB, Net: []string{"P1"}})
+	ln("no name,C,P1", "debug update_config(listener without name)", dbgListenerJSON("", dbgAddrC, "P1", nil, 1), expFree, &lnSem{Name: dbgAddrC, Addr: dbgAddrC, Net: []string{"P1"}})
+	ln("L1,A,two filter chains", "debug update_config(listener with two filter chains)", dbgListenerJSON(dbgL1, dbgAddrA, "P1", nil, 2), expReject, nil)
+	ln("L1,filter_chains is a string", "debug update_config(listener, field of the wrong JSON type)", jm{"name": dbgL1, "address": dbgAddrA, "filter_chains": "x"}, expReject, nil)
+
+	// --- /debug/update_route
+	routeCfg := func(router, domain, route string, withRoute bool) jm {
+		m := jm{}
+		if router != "-" {
+			m["router_config_name"] = router
+		}
+		if domain != "-" {
+			m["domain"] = domain
+		}
+		if withRoute {
+			m["route"] = mkRoute(route)
+		}
+		return m
+	}
+	for _, x := range []struct{ router, domain, route string }{
+		{"r1", "d1.test", "a->c2"}, {"r1", "d1.test", "all->c1"}, {"r1", "unknown.test", "a->c2"}, {"r9", "d1.test", "a->c2"}, {"r1", "-", "a->c2"}} {
+		exp, cls, dom := expRoute, "debug update_route(add)", x.domain
+		switch {
+		case x.router == "r9":
+			exp, cls = expFree, "debug update_route(add, unknown router)"
+		case x.domain == "-":
+			exp, cls, dom = expFree, "debug update_route(add without domain)", ""
+		}
+		add(&dOp{Name: fmt.Sprintf("debug-route add(%s,%s,%s)", x.router, x.domain, x.route), Class: cls,
+			Req: post(pathRoute, envelope("add", routeCfg(x.router, x.domain, x.route, true))), Expect: exp,
+			Eq: &opT{Kind: kAddRoute, RouterName: x.router, Domain: dom, Route: x.route}})
+	}
+	add(&dOp{Name: "debug-route add(r1,d1.test,no route)", Class: "debug update_route(add without route)",
+		Req: post(pathRoute, envelope("add", routeCfg("r1", "d1.test", "", false))), Expect: expFree, Opaque: []string{"r1"}})
+	add(&dOp{Name: "debug-route add(config is a string)", Class: "debug update_route(add, config of the wrong JSON type)",
+		Req: post(pathRoute, `{"type":"add","config":"r1"}`), Expect: expReject})
+	for _, x := range []struct{ router, domain string }{{"r1", "d1.test"}, {"r1", "unknown.test"}, {"r9", "d1.test"}} {
+		exp, cls := expRoute, "debug update_route(remove)"
+		if x.router == "r9" {
+			exp, cls = expFree, "debug update_route(remove, unknown router)"
+		}
+		add(&dOp{Name: fmt.Sprintf("debug-route remove(%s,%s)", x.router, x.domain), Class: cls,
+			Req: post(pathRoute, envelope("remove", routeCfg(x.router, x.domain, "", false))), Expect: exp,
+			Eq: &opT{Kind: kRemoveAll, RouterName: x.router, Domain: x.domain}})
+	}
+	add(&dOp{Name: "debug-route unknown type", Class: "debug update_route(unknown type)",
+		Req: post(pathRoute, envelope("replace", routeCfg("r1", "d1.test", "all->c1", true))), Expect: expReject})
+	add(&dOp{Name: "debug-route malformed json", Class: "debug update_route(malformed JSON)",
+		Req: post(pathRoute, `{"type":"remove","config":{"router_config_name":"r1","domain":"d1.test"`), Expect: expReject})
+
+	// --- /debug/disable_tls
+	tr, fa := true, false
+	add(&dOp{Name: "debug-tls disable=true", Class: "debug disable_tls", Req: &dReq{"GET", pathTLS + "?disable=true", ""}, Expect: expAccept, TLS: &tr})
+	add(&dOp{Name: "debug-tls disable=false", Class: "debug disable_tls", Req: &dReq{"GET", pathTLS + "?disable=false", ""}, Expect: expAccept, TLS: &fa})
+	add(&dOp{Name: "debug-tls disable=maybe", Class: "debug disable_tls(invalid value)", Req: &dReq{"GET", pathTLS + "?disable=maybe", ""}, Expect: expReject})
+	add(&dOp{Name: "debug-tls no parameter", Class: "debug disable_tls(no parameter)", Req: &dReq{"GET", pathTLS, ""}, Expect: expReject})
+
+	// --- a read-only admin request
+	add(&dOp{Name: "GET config_dump", Class: "admin config_dump", Req: &dReq{"GET", pathCfgDump, ""}, Expect: expAccept, Read: true})
+
+	// --- Go-API / xDS operations of the BFS alphabet, and the listener delete
+	for _, n := range []string{
+		"AddOrUpdateRouters(RB)", "AddRoute(r1,d1.test,all->c1)", "TriggerClusterAddOrUpdate(CA2)", "TriggerClusterHostUpdate(c1,{h1,h2})",
+		"TriggerHostAppend(c1,{h3})", "TriggerHostDel(c1,{h1})", "TriggerClusterDel(c1)", "xds-ConvertUpdateEndpoints(c1,[{h1},{h2,h3}])"} {
+		o := opByName[n]
+		if o == nil {
+			return nil, fmt.Errorf("the BFS alphabet has no operation %q", n)
+		}
+		add(&dOp{Name: "api " + n, Go: o})
+	}
+	add(&dOp{Name: "api DeleteListener(L1)", Class: "DeleteListener", DelLn: dbgL1})
+	return ops, berr
+}
+
+// ---------------------------------------------------------------------------
+// the universe
+// ---------------------------------------------------------------------------
+
+type dbgUniverse struct {
+	*universe
+	adapter *server.ListenerAdapter
+}
+
+var dbgServerDirty = true
+
+func dbgResetStreamFilters() error {
+	impl, ok := streamfilter.GetStreamFilterManager().(*streamfilter.StreamFilterManagerImpl)
+	if !ok {
+		return fmt.Errorf("stream filter manager is a %T", streamfilter.GetStreamFilterManager())
+	}
+	f := reflect.ValueOf(impl).Elem().FieldByName("streamFilterChainMap")
+	if !f.IsValid() || f.Type() != reflect.TypeOf(sync.Map{}) {
+		return fmt.Errorf("StreamFilterManagerImpl.streamFilterChainMap is not a sync.Map")
+	}
+	m := (*sync.Map)(unsafe.Pointer(f.UnsafeAddr()))
+	m.Range(func(k, _ interface{}) bool { m.Delete(k); return true })
+	return nil
+}
+
+func dbgReset() (*dbgUniverse, error) {
 	u, err := reset()
 	if err != nil {
-		t.Fatal(err)
+		return nil, err
 	}
-	server.ResetAdapter()
-	server.NewServer(&server.Config{ServerName: "verif-c12d"}, dbgCMFilter{}, nil)
-	do := func(method, path, body string) {
-		defer func() {
-			if r := recover(); r != nil {
-				fmt.Printf("%s %s %s\n   -> PANIC %v\n", method, path, body, r)
-			}
+	cluster.EnableClientSideTLS()
+	if err := dbgResetStreamFilters(); err != nil {
+		return nil, err
+	}
+	if dbgServerDirty || server.GetListenerAdapterInstance() == nil {
+		// a server whose handler has (had) listeners is replaced: the adapter forgets it
+		server.ResetAdapter()
+		server.NewServer(&server.Config{ServerName: dbgServer}, dbgCMFilter{}, nil)
+		dbgServerDirty = false
+	}
+	ad := server.GetListenerAdapterInstance()
+	if ad == nil {
+		return nil, fmt.Errorf("server.NewServer did not initialise the listener adapter")
+	}
+	return &dbgUniverse{universe: u, adapter: ad}, nil
+}
+
+type applyResult struct {
+	status   int
+	body     string
+	err      error  // Go-API operations
+	panicked string // panic text
+}
+
+func (r applyResult) rejected() bool { return r.panicked != "" || r.status >= 400 }
+
+func (u *dbgUniverse) apply(o *dOp) (res applyResult) {
+	switch {
+	case o.Go != nil:
+		res.err, res.panicked = u.universe.apply(o.Go)
+		return
+	case o.DelLn != "":
+		dbgServerDirty = true
+		func() {
+			defer func() {
+				if r := recover(); r != nil {
+					res.panicked = fmt.Sprint(r)
+				}
+			}()
+			res.err = u.adapter.DeleteListener("", o.DelLn)
 		}()
-		rec := httptest.NewRecorder()
-		req := httptest.NewRequest(method, path, strings.NewReader(body))
-		mux.ServeHTTP(rec, req)
-		fmt.Printf("%s %s %s\n   -> %d %q\n", method, path, body, rec.Code, rec.Body.String())
+		return
 	}
-	env := func(typ string, cfg interface{}) string {
-		b, _ := json.Marshal(map[string]interface{}{"type": typ, "config": cfg})
-		return string(b)
+	if strings.Contains(o.Req.Body, `"listener"`) {
+		dbgServerDirty = true
 	}
-	ra := mkRouterCfg("RA")
-	do("POST", "/debug/update_config", env("router", ra))
-	cl := mkCluster("CA")
-	cl.Hosts = mkHosts([]string{"h1", "h3"})
-	do("POST", "/debug/update_config", env("cluster", cl))
-	do("POST", "/debug/update_config", env("cluster", map[string]interface{}{}))
-	do("POST", "/debug/update_config", env("cluster", map[string]interface{}{"name": "c2", "hosts": []interface{}{map[string]interface{}{"address": "127.0.0.1:10002"}}}))
-	do("POST", "/debug/update_config", env("router", map[string]interface{}{"virtual_hosts": []interface{}{}}))
-	do("POST", "/debug/update_config", `{"type":"router","config":`)
-	do("POST", "/debug/update_config", `{"type":"router"}`)
-	do("POST", "/debug/update_config", `{"type":"router","config":5}`)
-	do("POST", "/debug/update_config", `{"type":"nonsense","config":{}}`)
-	do("POST", "/debug/update_config", ``)
-	do("POST", "/debug/update_config", env("extend", []interface{}{map[string]interface{}{"type": "e1", "config": map[string]interface{}{"v": 1}}}))
-	do("POST", "/debug/update_config", env("extend", map[string]interface{}{"type": "e1"}))
-	r := mkRoute("a->c2")
-	do("POST", "/debug/update_route", env("add", map[string]interface{}{"router_config_name": "r1", "domain": "d1.test", "route": r}))
-	do("POST", "/debug/update_route", env("add", map[string]interface{}{"router_config_name": "r9", "domain": "d1.test", "route": r}))
-	do("POST", "/debug/update_route", env("add", map[string]interface{}{"router_config_name": "r1", "domain": "d1.test"}))
-	do("POST", "/debug/update_route", env("add", map[string]interface{}{"domain": "d1.test", "route": r}))
-	do("POST", "/debug/update_route", env("add", map[string]interface{}{"router_config_name": "r1", "route": r}))
-	do("POST", "/debug/update_route", env("remove", map[string]interface{}{"router_config_name": "r1", "domain": "d1.test"}))
-	do("POST", "/debug/update_route", env("remove", map[string]interface{}{"router_config_name": "r1", "domain": "zz.test"}))
-	do("POST", "/debug/update_route", env("replace", map[string]interface{}{"router_config_name": "r1", "domain": "zz.test"}))
-	do("POST", "/debug/update_route", env("add", "x"))
-	do("GET", "/debug/disable_tls?disable=true", "")
-	do("GET", "/debug/disable_tls?disable=maybe", "")
-	do("GET", "/debug/disable_tls", "")
-	do("POST", "/debug/disable_tls", "disable=false")
-	do("POST", "/debug/update_config", env("listener", map[string]interface{}{"name": "L1", "address": "127.0.0.1:10021",
-		"filter_chains": []interface{}{map[string]interface{}{"filters": []interface{}{map[string]interface{}{"type": "verif_c12d_network", "config": map[string]interface{}{"variant": "P1"}}}}}}))
-	do("POST", "/debug/update_config", env("listener", map[string]interface{}{"address": "127.0.0.1:10022",
-		"filter_chains": []interface{}{map[string]interface{}{"filters": []interface{}{}}}}))
-	do("POST", "/debug/update_config", env("listener", map[string]interface{}{"name": "L3",
-		"filter_chains": []interface{}{map[string]interface{}{"filters": []interface{}{}}}}))
-	do("POST", "/debug/update_config", env("listener", map[string]interface{}{"name": "L4", "address": "nonsense",
-		"filter_chains": []interface{}{map[string]interface{}{"filters": []interface{}{}}}}))
-	do("GET", "/api/v1/config_dump", "")
-	b, _ := configmanager.InheritMosnconfig()
-	fmt.Println(string(b))
-	cfg, _ := dumped()
-	fmt.Println(u.canonOf(cfg))
-	for _, n := range []string{"L1", "127.0.0.1:10022", "L3", "L4"} {
-		l := server.GetListenerAdapterInstance().FindListenerByName("", n)
-		if l == nil {
-			fmt.Println(n, "absent")
+	defer func() {
+		if r := recover(); r != nil {
+			res.panicked = fmt.Sprint(r)
+		}
+	}()
+	rec := httptest.NewRecorder()
+	var req *http.Request
+	if o.Req.Body == "" && o.Req.Method == "GET" {
+		req = httptest.NewRequest(o.Req.Method, o.Req.Path, nil)
+	} else {
+		req = httptest.NewRequest(o.Req.Method, o.Req.Path, strings.NewReader(o.Req.Body))
+		req.Header.Set("Content-Type", "application/json")
+	}
+	dbgMux.ServeHTTP(rec, req)
+	res.status, res.body = rec.Code, rec.Body.String()
+	return
+}
+
+// ---------------------------------------------------------------------------
+// listener observations
+// ---------------------------------------------------------------------------
+
+type lnObs struct {
+	Present bool     `json:"present"`
+	Addr    string   `json:"addr,omitempty"`
+	Cfg     string   `json:"cfg,omitempty"`
+	Net     []string `json:"net,omitempty"`
+	Stream  []string `json:"stream,omitempty"`
+}
+
+func netTags(fs []api.NetworkFilterChainFactory) []string {
+	r := &dbgNetRecorder{}
+	for _, f := range fs {
+		f.CreateFilterChain(context.Background(), r)
+	}
+	return r.tags
+}
+
+func streamTags(f streamfilter.StreamFilterFactory) []string {
+	if f == nil || reflect.ValueOf(f).IsNil() {
+		return nil
+	}
+	r := &dbgStreamRecorder{}
+	f.CreateFilterChain(context.Background(), r)
+	return r.tags
+}
+
+func (u *dbgUniverse) liveListener(name string) (lnObs, error) {
+	l := u.adapter.FindListenerByName("", name)
+	if l == nil || reflect.ValueOf(l).IsNil() {
+		return lnObs{}, nil
+	}
+	o := lnObs{Present: true}
+	if l.Addr() != nil {
+		o.Addr = l.Addr().String()
+	}
+	raw, err := json.Marshal(l.Config())
+	if err != nil {
+		return o, fmt.Errorf("live listener %s: config does not marshal: %v", name, err)
+	}
+	if o.Cfg, err = normListenerJSON(raw); err != nil {
+		return o, fmt.Errorf("live listener %s: config does not parse back: %v", name, err)
+	}
+	o.Net = netTags(configmanager.GetNetworkFilterFactories(name))
+	o.Stream = streamTags(streamfilter.GetStreamFilterManager().GetStreamFilterFactory(name))
+	return o, nil
+}
+
+// freshListener describes what a restarted MOSN builds from a dumped listener
+// configuration: the same factory creators, no registration anywhere.
+func freshListener(lc *v2.Listener) (lnObs, error) {
+	o := lnObs{Present: true}
+	if lc.Addr != nil {
+		o.Addr = lc.Addr.String()
+	}
+	raw, err := json.Marshal(lc)
+	if err != nil {
+		return o, err
+	}
+	if o.Cfg, err = normListenerJSON(raw); err != nil {
+		return o, err
+	}
+	if len(lc.FilterChains) == 1 {
+		var fs []api.NetworkFilterChainFactory
+		for _, f := range lc.FilterChains[0].Filters {
+			if fac, err := api.CreateNetworkFilterChainFactory(f.Type, f.Config); err == nil && fac != nil {
+				fs = append(fs, fac)
+			}
+		}
+		o.Net = netTags(fs)
+	} else {
+		o.Net = []string{fmt.Sprintf("<%d filter chains>", len(lc.FilterChains))}
+	}
+	if len(lc.StreamFilters) > 0 {
+		o.Stream = streamTags(streamfilter.NewStreamFilterFactory(lc.StreamFilters))
+	}
+	return o, nil
+}
+
+func dumpedListeners(cfg *v2.MOSNConfig) map[string]*v2.Listener {
+	out := map[string]*v2.Listener{}
+	for i := range cfg.Servers {
+		for j := range cfg.Servers[i].Listeners {
+			l := &cfg.Servers[i].Listeners[j]
+			out[l.Name] = l
+		}
+	}
+	return out
+}
+
+func (u *dbgUniverse) listenerDifferential(cfg *v2.MOSNConfig) ([]diffT, error) {
+	var ds []diffT
+	dl := dumpedListeners(cfg)
+	names := map[string]bool{}
+	for _, n := range dbgListenerNames {
+		names[n] = true
+	}
+	for n := range dl {
+		names[n] = true
+	}
+	for _, n := range sortedKeys(names) {
+		live, err := u.liveListener(n)
+		if err != nil {
+			return nil, err
+		}
+		var fresh lnObs
+		if lc := dl[n]; lc != nil {
+			if fresh, err = freshListener(lc); err != nil {
+				return nil, fmt.Errorf("dumped listener %q: %v", n, err)
+			}
+		}
+		switch {
+		case live.Present && !fresh.Present:
+			ds = append(ds, diffT{"listener " + n, "served live but absent from the dump", jsonOf(live)})
+		case !live.Present && fresh.Present:
+			ds = append(ds, diffT{"listener " + n, "in the dump but not served live", jsonOf(fresh)})
+		case !live.Present:
+		case live.Addr != fresh.Addr:
+			ds = append(ds, diffT{"listener " + n, "address differs", fmt.Sprintf("live %s, from dump %s", live.Addr, fresh.Addr)})
+		case live.Cfg != fresh.Cfg:
+			ds = append(ds, diffT{"listener " + n, "stored configuration differs", fmt.Sprintf("live %s, from dump %s", live.Cfg, fresh.Cfg)})
+		case !reflect.DeepEqual(live.Net, fresh.Net):
+			ds = append(ds, diffT{"listener " + n, "network filter chain differs", fmt.Sprintf("live %v, from dump %v", live.Net, fresh.Net)})
+		case !reflect.DeepEqual(live.Stream, fresh.Stream):
+			ds = append(ds, diffT{"listener " + n, "stream filter chain differs", fmt.Sprintf("live %v, from dump %v", live.Stream, fresh.Stream)})
+		}
+	}
+	return ds, nil
+}
+
+// dbgDifferential is oracle (D). A cluster without a name is reported (the dump is
+// not loadable) and left out of the rebuild, which would end the process.
+func (u *dbgUniverse) dbgDifferential(cfg *v2.MOSNConfig) ([]diffT, error) {
+	var ds []diffT
+	cp := *cfg
+	cp.ClusterManager.Clusters = nil
+	for _, c := range cfg.ClusterManager.Clusters {
+		if c.Name == "" {
+			ds = append(ds, diffT{"dump", "the dump holds a cluster without a name: a MOSN started from it exits (ParseClusterConfig: name is required)", jsonOf(c)})
 			continue
 		}
-		fmt.Println(n, l.Addr(), jsonOf(l.Config()))
+		cp.ClusterManager.Clusters = append(cp.ClusterManager.Clusters, c)
 	}
+	ds = append(ds, u.differential(&cp)...)
+	lds, err := u.listenerDifferential(cfg)
+	return append(ds, lds...), err
+}
+
+func extString(es []v2.ExtendConfig) string {
+	var s []string
+	for _, e := range es {
+		var sb strings.Builder
+		for _, c := range string(e.Config) {
+			if c != ' ' && c != '\n' && c != '\t' {
+				sb.WriteRune(c)
+			}
+		}
+		s = append(s, e.Type+"="+sb.String())
+	}
+	return strings.Join(s, ";")
+}
+
+func (u *dbgUniverse) dbgCanon(cfg *v2.MOSNConfig) (string, error) {
+	type st struct {
+		Base      string
+		Listeners map[string]lnObs
+		DumpLn    []string
+		Ext       string
+		TLSOff    bool
+	}
+	s := st{Base: u.canonOf(cfg), Listeners: map[string]lnObs{}, Ext: extString(cfg.Extends), TLSOff: !cluster.IsSupportTLS()}
+	for _, n := range dbgListenerNames {
+		o, err := u.liveListener(n)
+		if err != nil {
+			return "", err
+		}
+		s.Listeners[n] = o
+	}
+	dl := dumpedListeners(cfg)
+	for n, lc := range dl {
+		s.DumpLn = append(s.DumpLn, n+"="+jsonOf(lc))
+	}
+	sort.Strings(s.DumpLn)
+	return jsonOf(s), nil
+}
+
+// ---------------------------------------------------------------------------
+// model additions
+// ---------------------------------------------------------------------------
+
+type mLn struct {
+	opaque bool
+	sem    *lnSem
+}
+
+type dbgModel struct {
+	*model
+	ln     map[string]*mLn // missing = absent
+	ext    []extKV
+	tlsOff bool
+}
+
+func (m *dbgModel) extString() string {
+	var s []string
+	for _, e := range m.ext {
+		s = append(s, e.Type+"="+e.Config)
+	}
+	return strings.Join(s, ";")
+}
+
+func cmpListener(exp *mLn, live lnObs) (class, detail string) {
+	switch {
+	case exp == nil && live.Present:
+		return "listener is served but must be absent", jsonOf(live)
+	case exp == nil || exp.opaque:
+		return "", ""
+	case !live.Present:
+		return "listener must exist but is not served", exp.sem.Cfg
+	case live.Addr != exp.sem.Addr:
+		return "listener address is not the configured one", fmt.Sprintf("expected %s, live %s", exp.sem.Addr, live.Addr)
+	case live.Cfg != exp.sem.Cfg:
+		return "stored listener configuration is not that of the last update", fmt.Sprintf("expected %s, live %s", exp.sem.Cfg, live.Cfg)
+	case !reflect.DeepEqual(live.Net, exp.sem.Net):
+		return "network filter chain in force is not that of the last update", fmt.Sprintf("expected %v, live %v", exp.sem.Net, live.Net)
+	case !reflect.DeepEqual(live.Stream, exp.sem.Stream):
+		return "stream filter chain in force is not that of the last update", fmt.Sprintf("expected %v, live %v", exp.sem.Stream, live.Stream)
+	}
+	return "", ""
+}
+
+// ---------------------------------------------------------------------------
+// running one history
+// ---------------------------------------------------------------------------
+
+var errRejected = errors.New("request answered with an error status")
+
+type dbgStats struct {
+	panics   map[string]int
+	statuses map[string]int
+}
+
+var dbgSt = dbgStats{panics: map[string]int{}, statuses: map[string]int{}}
+
+func runDbgHistory(hist []*dOp, diffEveryStep bool) (res runResult, firstDiff map[string]int) {
+	u, err := dbgReset()
+	if err != nil {
+		res.harness = "reset: " + err.Error()
+		return
+	}
+	m := &dbgModel{model: newModel(), ln: map[string]*mLn{}}
+	firstDiff = map[string]int{}
+	add := func(key, detail string) { res.findings = append(res.findings, found{key, detail}) }
+	for i, o := range hist {
+		last := i == len(hist)-1
+		var before string
+		if last && o.Req != nil && !diffEveryStep {
+			cfg, derr := dumped()
+			if derr == nil {
+				before, derr = u.dbgCanon(cfg)
+			}
+			if derr != nil {
+				res.harness = derr.Error()
+				return
+			}
+		}
+		// expectation that depends on the model state
+		mustAccept := o.Expect == expAccept
+		if o.Expect == expRoute {
+			if r := m.routers[o.Eq.RouterName]; r != nil && r.state == rSpecified && exactVhost(r.cfg, o.Eq.Domain) >= 0 {
+				mustAccept = true
+			}
+		}
+		ar := u.apply(o)
+		if last {
+			switch {
+			case ar.panicked != "":
+				res.outcome = o.class() + " panic"
+				dbgSt.panics[o.class()]++
+			case o.Req != nil:
+				res.outcome = fmt.Sprintf("%s status=%d", o.class(), ar.status)
+			default:
+				res.outcome = fmt.Sprintf("%s err=%v", o.class(), ar.err != nil)
+			}
+		}
+		if ar.panicked != "" && (o.Req == nil || o.Expect == expAccept || mustAccept) {
+			// an operation the statement lets succeed must not panic
+			if last {
+				add("update operation panics: "+o.class(), "panic: "+ar.panicked)
+			}
+			cfg, derr := dumped()
+			if derr != nil {
+				res.harness = derr.Error()
+				return
+			}
+			c, cerr := u.dbgCanon(cfg)
+			if cerr != nil {
+				res.harness = cerr.Error()
+				return
+			}
+			res.canon = "PANIC " + o.Name + " " + c
+			return
+		}
+		rejected := ar.rejected()
+		if o.Req != nil && last {
+			switch {
+			case o.Expect == expReject && !rejected:
+				add(o.class()+": an invalid request is answered with a success status", fmt.Sprintf("%s %s %s -> %d %q", o.Req.Method, o.Req.Path, o.Req.Body, ar.status, ar.body))
+			case mustAccept && rejected:
+				add(o.class()+": a valid update request is rejected", fmt.Sprintf("%s %s %s -> %d %q", o.Req.Method, o.Req.Path, o.Req.Body, ar.status, ar.body))
+			}
+		}
+
+		// --- model step and comparison of what the statement fixes
+		var cr, cc, ac []string
+		switch {
+		case o.Go != nil:
+			cr, cc, ac = m.step(o.Go, ar.err)
+		case o.Req != nil && rejected:
+			// nothing may change: the objects the request addresses are compared with the unchanged model
+			if o.Eq != nil {
+				if o.Eq.Kind == kRouters {
+					cr = []string{mkRouterCfg(o.Eq.RouterCfg).RouterConfigName}
+				} else if o.Eq.RouterName != "" {
+					cr = []string{o.Eq.RouterName}
+				}
+				cc = o.Eq.Clusters
+			}
+		case o.Eq != nil:
+			cr, cc, ac = m.step(o.Eq, nil)
+		}
+		if o.Req != nil && !rejected {
+			for _, n := range o.Opaque {
+				m.routers[n].state, m.routers[n].cfg = rOpaque, nil
+			}
+		}
+		for _, n := range cr {
+			if class, detail := m.cmpRouter(n, u.liveRouter(n)); class != "" {
+				if last {
+					add(fmt.Sprintf("router after %s: %s", o.class(), class), fmt.Sprintf("router %s: %s", n, detail))
+				}
+				m.routers[n].state, m.routers[n].cfg = rOpaque, nil
+			}
+		}
+		for _, n := range cc {
+			live := u.liveCluster(n, false)
+			if class, detail := cmpCluster(m.clusters[n], live); class != "" {
+				if last {
+					if o.Go != nil && o.Go.Kind == kXdsEDS && class == "expected hosts missing" {
+						class = "host set is not the union of all localities' endpoints (hosts missing)"
+					}
+					add(fmt.Sprintf("cluster after %s: %s", o.class(), class), fmt.Sprintf("cluster %s: %s", n, detail))
+				}
+				m.adopt(n, live)
+			}
+		}
+		for _, n := range ac {
+			live := u.liveCluster(n, false)
+			if exp := m.clusters[n]; exp != nil && live.Present && exp.lb != live.Lb && !rejected && ar.err == nil && last {
+				add(fmt.Sprintf("cluster after %s: lb type is not that of the last update", o.class()), fmt.Sprintf("cluster %s: expected %s, live %s", n, exp.lb, live.Lb))
+			}
+			m.adopt(n, live)
+		}
+		// listeners
+		lnTouched := ""
+		switch {
+		case o.DelLn != "":
+			lnTouched = o.DelLn
+			if ar.err == nil && ar.panicked == "" {
+				delete(m.ln, o.DelLn) // removed objects are gone
+			} else if m.ln[o.DelLn] != nil {
+				m.ln[o.DelLn].opaque = true
+			}
+		case o.Ln != nil:
+			lnTouched = o.Ln.Name
+			cur := m.ln[o.Ln.Name]
+			switch {
+			case rejected:
+				if cur == nil && last {
+					// nothing to update and the request is well formed: a valid add
+					add(o.class()+": a valid update request is rejected", fmt.Sprintf("%s -> %d %q", o.Req.Body, ar.status, ar.body))
+				}
+			case cur == nil || (!cur.opaque && cur.sem.Addr == o.Ln.Addr):
+				m.ln[o.Ln.Name] = &mLn{sem: o.Ln} // last update wins
+			default:
+				// an update with another address was accepted (rejecting it is the listeners unit's
+				// business), or the model lost track: only (D) applies from here
+				m.ln[o.Ln.Name] = &mLn{opaque: true}
+			}
+		}
+		if lnTouched != "" {
+			live, lerr := u.liveListener(lnTouched)
+			if lerr != nil {
+				res.harness = lerr.Error()
+				return
+			}
+			if class, detail := cmpListener(m.ln[lnTouched], live); class != "" {
+				if last {
+					add(fmt.Sprintf("listener after %s: %s", o.class(), class), fmt.Sprintf("listener %s: %s", lnTouched, detail))
+				}
+				if live.Present {
+					m.ln[lnTouched] = &mLn{opaque: true}
+				} else {
+					delete(m.ln, lnTouched)
+				}
+			}
+		}
+		// extends and the TLS switch
+		if o.Req != nil && !rejected {
+			for _, kv := range o.Ext {
+				done := false
+				for j := range m.ext {
+					if m.ext[j].Type == kv.Type {
+						m.ext[j].Config, done = kv.Config, true
+					}
+				}
+				if !done {
+					m.ext = append(m.ext, kv)
+				}
+			}
+			if o.TLS != nil {
+				m.tlsOff = *o.TLS
+			}
+		}
+		if o.Ext != nil {
+			cfg, derr := dumped()
+			if derr != nil {
+				res.harness = derr.Error()
+				return
+			}
+			if got := extString(cfg.Extends); got != m.extString() && last {
+				add(fmt.Sprintf("extends after %s: the dumped extends are not the last update of every type", o.class()), fmt.Sprintf("expected %s, dumped %s", m.extString(), got))
+			}
+		}
+		if got := !cluster.IsSupportTLS(); got != m.tlsOff {
+			if last && o.TLS != nil {
+				add(fmt.Sprintf("tls switch after %s: not the last accepted value", o.class()), fmt.Sprintf("expected disabled=%v, live disabled=%v", m.tlsOff, got))
+			}
+			m.tlsOff = got
+		}
+		// re-synchronise the extends model with the effective configuration after every step (a
+		// divergence was judged at the level of the history that ends with its cause)
+		configmanager.HandleMOSNConfig(configmanager.CfgTypeExtend, func(v interface{}) {
+			es, _ := v.([]v2.ExtendConfig)
+			if extString(es) != m.extString() {
+				m.ext = nil
+				for _, e := range es {
+					m.ext = append(m.ext, extKV{e.Type, strings.TrimPrefix(extString([]v2.ExtendConfig{e}), e.Type+"=")})
+				}
+			}
+		})
+
+		// (R) a rejected or read-only request changes nothing
+		if last && before != "" && o.Req != nil && (rejected || o.Read) {
+			cfg, derr := dumped()
+			if derr != nil {
+				res.harness = derr.Error()
+				return
+			}
+			after, cerr := u.dbgCanon(cfg)
+			if cerr != nil {
+				res.harness = cerr.Error()
+				return
+			}
+			if after != before {
+				what := "a request answered with an error status"
+				if o.Read {
+					what = "a read-only request"
+				} else if ar.panicked != "" {
+					what = "a request aborted by a panic of the handler"
+				}
+				add(fmt.Sprintf("%s: %s changes the served or stored configuration", o.class(), what), fmt.Sprintf("status %d %q panic %q\nbefore %s\nafter  %s", ar.status, ar.body, ar.panicked, before, after))
+			}
+		}
+		if o.Read && last && !rejected {
+			var x interface{}
+			if jerr := json.Unmarshal([]byte(ar.body), &x); jerr != nil {
+				add(o.class()+": the response is not JSON", jerr.Error())
+			}
+		}
+		if diffEveryStep {
+			cfg, derr := dumped()
+			if derr != nil {
+				res.harness = derr.Error()
+				return
+			}
+			ds, derr := u.dbgDifferential(cfg)
+			if derr != nil {
+				res.harness = derr.Error()
+				return
+			}
+			for _, d := range ds {
+				if _, ok := firstDiff[d.Obj]; !ok {
+					firstDiff[d.Obj] = i
+				}
+			}
+		}
+	}
+	cfg, derr := dumped()
+	if derr != nil {
+		res.harness = derr.Error()
+		return
+	}
+	diffs, derr := u.dbgDifferential(cfg)
+	if derr != nil {
+		res.harness = derr.Error()
+		return
+	}
+	if len(diffs) > 0 && !diffEveryStep {
+		_, fd := runDbgHistory(hist, true)
+		for _, d := range diffs {
+			i, ok := fd[d.Obj]
+			if !ok {
+				res.harness = "differential finding did not reproduce on the second replay: " + d.Obj
+				return
+			}
+			kind := strings.Fields(d.Obj)[0]
+			if kind == "dump" {
+				res.findings = append(res.findings, found{
+					fmt.Sprintf("dump not loadable, first after %s: %s", hist[i].class(), d.Class),
+					fmt.Sprintf("after step %d (%s): %s", i+1, hist[i].Name, d.Detail)})
+				continue
+			}
+			res.findings = append(res.findings, found{
+				fmt.Sprintf("%s live != rebuilt from dump, first after %s: %s", kind, hist[i].class(), d.Class),
+				fmt.Sprintf("%s after step %d (%s): %s", d.Obj, i+1, hist[i].Name, d.Detail)})
+		}
+	}
+	if res.canon, derr = u.dbgCanon(cfg); derr != nil {
+		res.harness = derr.Error()
+	}
+	return
+}
+
+func dbgHistNames(h []*dOp) []string {
+	out := make([]string, len(h))
+	for i, o := range h {
+		out[i] = o.Name
+	}
+	return out
+}
+
+func TestVerifC12DebugAPI(t *testing.T) {
+	if err := dbgSetup(); err != nil {
+		vreport.HarnessError("C12", dbgPart, err.Error())
+		t.Fatal(err)
+	}
+	// the unknown router r9 and the router without a name are observed as well
+	savedRouters := routerNames
+	routerNames = []string{"r1", "r2", "r9", ""}
+	defer func() { routerNames = savedRouters }()
+	ops, err := buildDbgAlphabet()
+	if err != nil {
+		vreport.HarnessError("C12", dbgPart, "alphabet: "+err.Error())
+		t.Fatal(err)
+	}
+	byName := map[string]*dOp{}
+	for _, o := range ops {
+		if byName[o.Name] != nil {
+			t.Fatalf("duplicate operation name %s", o.Name)
+		}
+		byName[o.Name] = o
+	}
+
+	p := vreport.Begin("C12", dbgPart, time.Duration(vreport.Pick(3, 40))*time.Minute)
+	record := func(res runResult, hist []*dOp) bool {
+		if res.harness != "" {
+			vreport.HarnessError("C12", dbgPart, fmt.Sprintf("history %v: %s", dbgHistNames(hist), res.harness))
+			return false
+		}
+		for _, f := range res.findings {
+			p.Violation(f.key, fmt.Sprintf("history %v: %s", dbgHistNames(hist), f.detail), c12Case{History: dbgHistNames(hist)})
+		}
+		return true
+	}
+
+	if vreport.Replaying() {
+		var rc c12Case
+		if vreport.ReplayFor("C12", dbgPart, &rc) {
+			var hist []*dOp
+			for _, n := range rc.History {
+				o := byName[n]
+				if o == nil {
+					vreport.HarnessError("C12", dbgPart, "replay names unknown operation "+n)
+					return
+				}
+				hist = append(hist, o)
+			}
+			p.Eval()
+			res, _ := runDbgHistory(hist, false)
+			record(res, hist)
+			p.End(true, "replay", "replay of one recorded history")
+		}
+		return
+	}
+
+	depth := vreport.Pick(3, 5)
+	root, _ := runDbgHistory(nil, false)
+	if !record(root, nil) {
+		t.Fatal("harness error")
+	}
+	if strings.Contains(root.canon, `\"present\":true`) || strings.Contains(root.canon, `"present":true`) {
+		vreport.HarnessError("C12", dbgPart, "initial state is not empty: "+root.canon)
+		t.Fatal("harness error")
+	}
+	seen := map[string]bool{root.canon: true}
+	p.AddStates(1)
+	p.AddTraces(1)
+	frontier := [][]*dOp{nil}
+	complete := true
+	perLevel := []int{1}
+	selfChecks, httpOps := 0, 0
+	for _, o := range ops {
+		if o.Req != nil {
+			httpOps++
+		}
+	}
+search:
+	for d := 1; d <= depth; d++ {
+		var next [][]*dOp
+		for _, h := range frontier {
+			for _, o := range ops {
+				if p.Expired() {
+					complete = false
+					break search
+				}
+				hist := append(append([]*dOp(nil), h...), o)
+				res, _ := runDbgHistory(hist, false)
+				p.Eval()
+				p.AddTransitions(1)
+				p.AddTraces(1)
+				if !record(res, hist) {
+					t.Fatal("harness error")
+				}
+				p.Outcome(res.outcome)
+				dbgSt.statuses[res.outcome]++
+				if seen[res.canon] {
+					continue
+				}
+				again, _ := runDbgHistory(hist, false)
+				selfChecks++
+				if again.canon != res.canon {
+					vreport.HarnessError("C12", dbgPart, fmt.Sprintf("two replays of %v reach different canonical states:\n%s\n%s", dbgHistNames(hist), res.canon, again.canon))
+					t.Fatal("harness nondeterminism")
+				}
+				seen[res.canon] = true
+				p.Distinct(res.canon)
+				p.AddStates(1)
+				next = append(next, hist)
+				if p.WantSample() {
+					p.Sample(map[string]interface{}{"history": dbgHistNames(hist), "last_op_outcome": res.outcome, "findings": len(res.findings)})
+				}
+			}
+		}
+		perLevel = append(perLevel, len(next))
+		frontier = next
+	}
+	p.Note("new_states_per_depth", perLevel)
+	p.Note("alphabet_size", len(ops))
+	p.Note("alphabet_http_requests", httpOps)
+	p.Note("replay_determinism_self_checks", selfChecks)
+	p.Note("handler_panics_on_requests_with_missing_fields_not_judged", dbgSt.panics)
+	p.Note("last_operation_outcomes", dbgSt.statuses)
+	p.Note("listener_starts_requested_by_the_adapter", atomic.LoadInt64(&dbgStarts))
+	p.End(complete,
+		fmt.Sprintf("every history of <= %d operations over an alphabet of %d operations: %d HTTP requests served by the real admin mux and the handlers of pkg/admin/debug (update_config router/cluster/listener/extend, update_route add/remove, disable_tls, config_dump: valid, repeated, unknown object, malformed JSON, unknown type, wrong JSON type, missing field, other method) and %d Go-API/xDS operations of the BFS alphabet plus DeleteListener; successors expanded from every distinct canonical state", depth, len(ops), httpOps, len(ops)-httpOps),
+		"BFS; a state is an operation history replayed on reset singletons (incl. a never-started server behind the listener adapter); states merged on canonical form (BFS unit's form + listeners, extends, TLS switch); distinct = distinct canonical states; outcome = last operation class x status; oracles: live == objects rebuilt from the dump (routers, clusters, listeners; the dump must be loadable), the BFS unit's reference model fed with the semantic equivalent of each accepted request, error status / handler panic / read-only request => canonical state unchanged, malformed requests => error status, valid updates => 200; not judged (statement silent): status of requests with missing fields, on unknown objects, with another method, of the invalid router configuration and of a listener update with another address; handler panics on requests with missing fields")
 }
